@@ -88,6 +88,7 @@
 ; ---- validators (assumed pure functions) ------------------------------------------------------------------
 (declare-fun pkAddress (Iface) Bytes)      ; consensus address of a public key
 (declare-fun pkType (Iface) Bytes)
+(declare-fun pkBytes (Iface) Bytes)        ; raw bytes of a public key
 (declare-fun valStr (Bytes) Bytes)         ; sdk.ValAddress.String
 (declare-fun jsonIfaceOK (Bytes) Bool)     ; codec.UnmarshalInterfaceJSON succeeds on these bytes
 (declare-fun jsonIface (Bytes) Iface)
